@@ -35,6 +35,9 @@ type C07Config struct {
 	MaxDefragUTXOs     int  `json:"max_defrag_utxos"`
 	ShortReservation   bool `json:"short_reservation"` // 50 ms instead of 3 h
 	Genesis            bool `json:"genesis"`           // the wallet key owns six genesis outputs
+	// Order selects the (deterministic) order in which the store lists the
+	// unspent outputs; the reference store lists them in map order.
+	Order int `json:"order,omitempty"`
 }
 
 // Op is one step of the machine. All fields are small integers that are
@@ -73,6 +76,7 @@ func genConfig(t *rapid.T) C07Config {
 		Era:      rapid.IntRange(0, 3).Draw(t, "era"),
 		Maturity: rapid.IntRange(1, 3).Draw(t, "maturity"),
 		Genesis:  rapid.IntRange(0, 2).Draw(t, "genesis") > 0,
+		Order:    rapid.IntRange(0, 3).Draw(t, "store-order"),
 	}
 	if rapid.IntRange(0, 4).Draw(t, "default-defrag") == 0 {
 		c.DefragThreshold, c.MaxInputsForDefrag, c.MaxDefragUTXOs = 30, 30, 10
@@ -228,9 +232,39 @@ type world struct {
 	res   map[scID]resv
 	reqs  []*request
 	forks int
+	pays  int
 	cs    *kit.CaseStats
 
 	feat struct{ reserved, poolSpent, immature, unconfirmed, all4, defragRan bool }
+}
+
+// orderedStore is the reference store with a deterministic listing order, so
+// that the wallet's tie-breaks among equal-valued outputs (all block rewards
+// of the test network are equal) do not depend on Go's map iteration order and
+// a saved case replays the same way.
+type orderedStore struct {
+	*testutil.EphemeralWalletStore
+	order int
+}
+
+func (s orderedStore) UnspentSiacoinElements() (types.ChainIndex, []types.SiacoinElement, error) {
+	tip, utxos, err := s.EphemeralWalletStore.UnspentSiacoinElements()
+	key := func(id scID) string {
+		b := id
+		if s.order&2 != 0 {
+			for i, j := 0, len(b)-1; i < j; i, j = i+1, j-1 {
+				b[i], b[j] = b[j], b[i]
+			}
+		}
+		return string(b[:])
+	}
+	sort.Slice(utxos, func(i, j int) bool {
+		if s.order&1 != 0 {
+			return key(utxos[i].ID) > key(utxos[j].ID)
+		}
+		return key(utxos[i].ID) < key(utxos[j].ID)
+	})
+	return tip, utxos, err
 }
 
 func c07WalletKey() types.PrivateKey {
@@ -305,11 +339,11 @@ func newWorld(cfg C07Config, cs *kit.CaseStats) (*world, error) {
 }
 
 func (wd *world) openWallets() (err error) {
-	wd.w, err = wallet.NewSingleAddressWallet(wd.wkey, wd.cm, wd.ws, wd.syncer, wd.cfg.options()...)
+	wd.w, err = wallet.NewSingleAddressWallet(wd.wkey, wd.cm, orderedStore{wd.ws, wd.cfg.Order}, wd.syncer, wd.cfg.options()...)
 	if err != nil {
 		return err
 	}
-	wd.p, err = wallet.NewSingleAddressWallet(wd.pkey, wd.cm, wd.ps, wd.syncer, wallet.WithDebounceInterval(time.Hour))
+	wd.p, err = wallet.NewSingleAddressWallet(wd.pkey, wd.cm, orderedStore{wd.ps, 0}, wd.syncer, wallet.WithDebounceInterval(time.Hour))
 	return err
 }
 
@@ -869,11 +903,14 @@ var oneH = types.NewCurrency64(1)
 func (wd *world) opPay(op Op) error {
 	var outs []types.SiacoinOutput
 	var total types.Currency
-	for _, s := range op.Sizes {
-		v := paySizes[modInt(s, len(paySizes))]
+	for i, s := range op.Sizes {
+		// distinct values (a few hastings apart) so that the wallet's map-order
+		// tie-breaks among unconfirmed outputs do not make replays diverge
+		v := paySizes[modInt(s, len(paySizes))].Add(types.NewCurrency64(uint64(16*(wd.pays%64) + i%16)))
 		outs = append(outs, types.SiacoinOutput{Address: wd.waddr, Value: v})
 		total = total.Add(v)
 	}
+	wd.pays++
 	if len(outs) == 0 {
 		return nil
 	}
@@ -1300,7 +1337,7 @@ func (wd *world) opSubmit(op Op, step int) error {
 			must, why = false, "v1-after-require-height"
 		}
 		wd.w.SignTransaction(&r.v1, r.toSignV1, types.CoveredFields{WholeTransaction: true})
-		set := append(wd.cm.UnconfirmedParents(r.v1), r.v1)
+		set := append(wd.poolAncestorsV1(r.v1), r.v1)
 		_, subErr = wd.cm.AddPoolTransactions(set)
 	default:
 		if !wd.v2Allowed() {
@@ -1315,7 +1352,11 @@ func (wd *world) opSubmit(op Op, step int) error {
 		}
 		basis, set := r.basis, r.v2
 		path := modInt(op.B, 3)
-		if len(r.v2) == 1 && (path > 0 || wd.hasUnconfirmedInput(r, snap)) {
+		if len(r.v2) == 1 && wd.hasUnconfirmedInput(r, snap) && r.basis == wd.cm.Tip() {
+			// the pool's transactions carry proofs for the tip, which is the basis
+			set = append(wd.poolAncestorsV2(r.v2[0]), r.v2[0])
+		} else if len(r.v2) == 1 && path == 1 && !r.unconf {
+			// the manager's helper, for requests without unconfirmed parents
 			basis, set, subErr = wd.cm.V2TransactionSet(r.basis, r.v2[0])
 		}
 		if subErr == nil {
@@ -1339,8 +1380,14 @@ func (wd *world) opSubmit(op Op, step int) error {
 			return err
 		}
 		for _, id := range r.ids {
-			if !s2.P[id] {
+			if !s2.P[id] && must {
 				return fmt.Errorf("%s: accepted, but input %v is not spent by the pool", where, id)
+			} else if !s2.P[id] {
+				// an identical transaction (same inputs and outputs, hence the same
+				// id) was funded after a restart and is confirmed already: the
+				// pool reports the set as known
+				wd.cs.Class("submit=identical-transaction-already-confirmed")
+				break
 			}
 		}
 		return nil
@@ -1362,6 +1409,68 @@ func (wd *world) opSubmit(op Op, step int) error {
 		return nil
 	}
 	return fmt.Errorf("%s: the signed transaction was rejected by the pool: %v", where, subErr)
+}
+
+// poolAncestorsV1 returns the pooled v1 transactions txn depends on
+// (transitively), in pool order, which is a valid order by construction. The
+// harness does not use Manager.UnconfirmedParents for this: it returns the
+// ancestors in reversed discovery order, which puts a parent after its own
+// child when txn spends outputs of both (outside C07).
+func (wd *world) poolAncestorsV1(txn types.Transaction) []types.Transaction {
+	pool := wd.cm.PoolTransactions()
+	need := map[scID]bool{}
+	for _, in := range txn.SiacoinInputs {
+		need[in.ParentID] = true
+	}
+	keep := make([]bool, len(pool))
+	for i := len(pool) - 1; i >= 0; i-- {
+		for j := range pool[i].SiacoinOutputs {
+			if need[pool[i].SiacoinOutputID(j)] {
+				keep[i] = true
+			}
+		}
+		if keep[i] {
+			for _, in := range pool[i].SiacoinInputs {
+				need[in.ParentID] = true
+			}
+		}
+	}
+	var out []types.Transaction
+	for i, k := range keep {
+		if k && pool[i].ID() != txn.ID() {
+			out = append(out, pool[i])
+		}
+	}
+	return out
+}
+
+func (wd *world) poolAncestorsV2(txn types.V2Transaction) []types.V2Transaction {
+	pool := wd.cm.V2PoolTransactions()
+	need := map[scID]bool{}
+	for _, in := range txn.SiacoinInputs {
+		need[in.Parent.ID] = true
+	}
+	keep := make([]bool, len(pool))
+	for i := len(pool) - 1; i >= 0; i-- {
+		txid := pool[i].ID()
+		for j := range pool[i].SiacoinOutputs {
+			if need[pool[i].SiacoinOutputID(txid, j)] {
+				keep[i] = true
+			}
+		}
+		if keep[i] {
+			for _, in := range pool[i].SiacoinInputs {
+				need[in.Parent.ID] = true
+			}
+		}
+	}
+	var out []types.V2Transaction
+	for i, k := range keep {
+		if k && pool[i].ID() != txn.ID() {
+			out = append(out, pool[i])
+		}
+	}
+	return out
 }
 
 func (wd *world) hasUnconfirmedInput(r *request, snap snapshot) bool {
